@@ -8,11 +8,11 @@ PROP = {
     ],
     "assumptions": ASSUME_COMMON + [
         "modelled: parser.go pushOptions/popOptions/popKeepOptions/scanOptions, the option handling of countCaptures (incl. x-mode '#' comments and the n bit) and of scanRegex/scanGroupOpen, over the token abstraction; both passes",
-        "not modelled: the RightToLeft bit flipped inside lookarounds; the effect of each option on node creation (checked per instance by leg c18-spellings: equal exported trees and programs, plus bounded-exhaustive inputs); the wrapping spelling on the full parser model is proved for the option machine only (C18_wrapping_group), for the leading spelling also on the full parse (C18_leading_group_same_parse)",
+        "not modelled: the RightToLeft bit flipped inside lookarounds; the effect of each option on node creation (checked per instance by leg c18-spellings: equal exported trees and programs, plus bounded-exhaustive inputs); the wrapping spelling on the full parser model is proved for the option machine only (C18_wrapping_group), for the leading spelling also on the full parse (C18_leading_group_same_parse) and on the pattern-text parser model Model/Parser.v (C18_parser_leading_group_same_parse)",
     ],
 }
 TEXT = {
-    "text": "Over the option stack machine of both parser passes (Model/Options.v), for every token list: a leading (?O) stamps the rest exactly as compiling with O0|O (C18_leading_group, also on the full parser model: C18_leading_group_same_parse), (?O: ts ) stamps ts the same way and restores the previous options after its ')' (C18_wrapping_group), the ')' of any group restores options and stack whatever (?-O)/(?O) settings its body contains (C18_scope_restores), and the pre-scan computes the same option word as the main pass at every token the main pass reaches (C18_passes_agree). Tied to the code by the option stamps read back from syntax.Parse's tree, and checked per instance: all spellings of generated and harvested patterns x 32 option subsets give equal trees, equal programs and equal results on bounded-exhaustive inputs.",
+    "text": "Over the option stack machine of both parser passes (Model/Options.v), for every token list: a leading (?O) stamps the rest exactly as compiling with O0|O (C18_leading_group, also on the full parser model: C18_leading_group_same_parse), (?O: ts ) stamps ts the same way and restores the previous options after its ')' (C18_wrapping_group), the ')' of any group restores options and stack whatever (?-O)/(?O) settings its body contains (C18_scope_restores), and the pre-scan computes the same option word as the main pass at every token the main pass reaches (C18_passes_agree). Tied to the code by the option stamps read back from syntax.Parse's tree, and checked per instance: all spellings of generated and harvested patterns x 32 option subsets give equal trees, equal programs and equal results on bounded-exhaustive inputs. On the pattern-text parser model (Model/Parser.v, tied to syntax.Parse by leg c10-parse; both passes, every scanner, the mandatory reducers), for every option word, pattern text and non-empty option string cs: C18_parser_leading_group_exact (parse o (\"(?cs)\"+p) is the parse of p from the initial state whose root Capture, Alternate and first Concatenate were made under o while the options of \"(?cs)\" are in force), C18_parser_leading_group_same_parse (same error code, same capture table, same tree up to the Options field of exactly these three nodes as they survive the reducers; RightToLeft equal), C18_parser_initial_node_options_only, C18_parser_inline_word_letters; witnesses: the trees are not literally equal, \"(?)a\" is an error, the wrapped spelling \"(?cs:p)\" fails for p ending in an x-mode comment (no general proof for the wrapped spelling on this model).",
     "design_ref": "DESIGN.md §4 C18",
     "note": "Coq kernel; no axioms. No defect found for this property.",
     "technique": "Coq proof (frame lemma for the option stack) over executable model + differential correspondence + per-instance program equality",
